@@ -24,27 +24,32 @@ type kindSpec struct {
 	Expr   string
 	Input  string
 	Format string // yaml | csv
+	Out    string // "" (yaml) | xml
 }
 
 func c18Kinds(aux string) map[string]kindSpec {
 	return map[string]kindSpec{
-		"plain":      {`.a + 1`, "a: 1\n", "yaml"},
-		"sort":       {`.l | sort`, "l: [3, 1, 2]\n", "yaml"},
-		"sortby":     {`.m | sort_by(.k)`, "m: [{k: 2, v: x}, {k: 1, v: y}]\n", "yaml"},
-		"interp":     {`"x\(.a)y\(.b)"`, "a: 1\nb: two\n", "yaml"},
-		"yamlrt":     {`.m | to_yaml | from_yaml | .k`, "m: {k: [1, {z: 2}]}\n", "yaml"},
-		"load":       {`load("` + aux + `") | .x`, "a: 1\n", "yaml"},
-		"multidoc":   {`.b`, "a: &x 1\nb: *x\n---\nb: 2\n", "yaml"},
-		"reduce":     {`.l[] as $i ireduce (0; . + $i)`, "l: [1, 2, 3]\n", "yaml"},
-		"litupd":     {`.e[] | 5 | . += 1`, "e: []\n---\ne: []\n---\ne: [1]\n", "yaml"},
-		"commentdoc": {`.`, "# just a comment\n", "yaml"},
-		"csv":        {`.[0].b`, "a,b\n1,x\n", "csv"},
+		"plain":      {`.a + 1`, "a: 1\n", "yaml", ""},
+		"sort":       {`.l | sort`, "l: [3, 1, 2]\n", "yaml", ""},
+		"sortby":     {`.m | sort_by(.k)`, "m: [{k: 2, v: x}, {k: 1, v: y}]\n", "yaml", ""},
+		"interp":     {`"x\(.a)y\(.b)"`, "a: 1\nb: two\n", "yaml", ""},
+		"yamlrt":     {`.m | to_yaml | from_yaml | .k`, "m: {k: [1, {z: 2}]}\n", "yaml", ""},
+		"load":       {`load("` + aux + `") | .x`, "a: 1\n", "yaml", ""},
+		"multidoc":   {`.b`, "a: &x 1\nb: *x\n---\nb: 2\n", "yaml", ""},
+		"reduce":     {`.l[] as $i ireduce (0; . + $i)`, "l: [1, 2, 3]\n", "yaml", ""},
+		"litupd":     {`.e[] | 5 | . += 1`, "e: []\n---\ne: []\n---\ne: [1]\n", "yaml", ""},
+		"commentdoc": {`.`, "# just a comment\n", "yaml", ""},
+		"csv":        {`.[0].b`, "a,b\n1,x\n", "csv", ""},
 		// the same expression text (one parsed tree) on different documents: nothing computed from the first document may stay in the tree
-		"regexa":  {`.p as $p | [.items[] | select(test("^\($p)"))]`, "p: a\nitems: [apple, banana]\n", "yaml"},
-		"regexb":  {`.p as $p | [.items[] | select(test("^\($p)"))]`, "p: b\nitems: [apple, banana]\n", "yaml"},
-		"interpb": {`"x\(.a)y\(.b)"`, "a: 9\nb: nine\n", "yaml"},
-		"subb":    {`.s | sub("\(.from)", "\(.to)")`, "s: hello\nfrom: l\nto: L\n", "yaml"},
-		"suba":    {`.s | sub("\(.from)", "\(.to)")`, "s: hello\nfrom: h\nto: J\n", "yaml"},
+		"regexa":  {`.p as $p | [.items[] | select(test("^\($p)"))]`, "p: a\nitems: [apple, banana]\n", "yaml", ""},
+		"regexb":  {`.p as $p | [.items[] | select(test("^\($p)"))]`, "p: b\nitems: [apple, banana]\n", "yaml", ""},
+		"interpb": {`"x\(.a)y\(.b)"`, "a: 9\nb: nine\n", "yaml", ""},
+		"subb":    {`.s | sub("\(.from)", "\(.to)")`, "s: hello\nfrom: l\nto: L\n", "yaml", ""},
+		"suba":    {`.s | sub("\(.from)", "\(.to)")`, "s: hello\nfrom: h\nto: J\n", "yaml", ""},
+		"tagset":  {`.a tag = .t`, "a: 1\nt: \"!!str\"\n", "yaml", ""},
+		"tagupd":  {`.b tag |= "!!int"`, "b: \"2\"\n", "yaml", ""},
+		"xmlc":    {`.`, "# hello\na: 1\n", "yaml", "xml"},
+		"xmlp":    {`.`, "b: 2\n", "yaml", "xml"},
 	}
 }
 
@@ -54,10 +59,11 @@ type sharedObjs struct {
 	trees    map[string]*yqlib.ExpressionNode
 	decoders map[string]yqlib.Decoder
 	encoder  yqlib.Encoder
+	encoders map[string]yqlib.Encoder
 }
 
 func newSharedObjs() *sharedObjs {
-	return &sharedObjs{trees: map[string]*yqlib.ExpressionNode{}, decoders: map[string]yqlib.Decoder{}}
+	return &sharedObjs{trees: map[string]*yqlib.ExpressionNode{}, decoders: map[string]yqlib.Decoder{}, encoders: map[string]yqlib.Encoder{}}
 }
 
 // evalKind evaluates one kind the way the stream evaluator does, on the given (possibly reused) objects.
@@ -89,7 +95,14 @@ func evalKind(k string, ks kindSpec, so *sharedObjs) (out string, err error) {
 		so.encoder = yqlib.NewYamlEncoder(yqlib.ConfiguredYamlPreferences)
 	}
 	var buf bytes.Buffer
-	printer := yqlib.NewPrinter(so.encoder, yqlib.NewSinglePrinterWriter(&buf))
+	enc := so.encoder
+	if ks.Out == "xml" {
+		if so.encoders["xml"] == nil {
+			so.encoders["xml"] = yqlib.NewXMLEncoder(yqlib.ConfiguredXMLPreferences)
+		}
+		enc = so.encoders["xml"]
+	}
+	printer := yqlib.NewPrinter(enc, yqlib.NewSinglePrinterWriter(&buf))
 	if err := dec.Init(strings.NewReader(ks.Input)); err != nil {
 		return "", err
 	}
